@@ -32,8 +32,10 @@ def proj (evs : List Ev) : List Tok := evs.flatMap projEv
   simp [proj]
 @[simp] theorem proj_nil : proj [] = [] := rfl
 
-/-- the laws of the body parser, for the body-parser states satisfying `G` -/
-structure PayloadLaws (cfg : Cfg) (G : PState → Prop) : Prop where
+/-- the laws of the body parser, for the body-parser states satisfying `G`; `Adm` is the side
+condition on the *saved* state under which carrying on from it is the same as not having stopped
+(for chunked bodies: the buffered partial line does not trip the early length check) -/
+structure PayloadLaws (cfg : Cfg) (G Adm : PState → Prop) : Prop where
   complete_stable : ∀ (p : PState) (a b rest : Bytes) (ev : List Ev), G p →
     payloadFeed cfg p a = (.complete rest, ev) → payloadFeed cfg p (a ++ b) = (.complete (rest ++ b), ev)
   complete_shrinks : ∀ (p : PState) (a rest : Bytes) (ev : List Ev), G p → a ≠ [] →
@@ -41,7 +43,7 @@ structure PayloadLaws (cfg : Cfg) (G : PState → Prop) : Prop where
   needs_closed : ∀ (p p' : PState) (a : Bytes) (ev : List Ev), G p →
     payloadFeed cfg p a = (.needs p', ev) → G p'
   needs_split : ∀ (p p' : PState) (a b : Bytes) (ev1 : List Ev), G p →
-    payloadFeed cfg p a = (.needs p', ev1) → b ≠ [] →
+    payloadFeed cfg p a = (.needs p', ev1) → Adm p' → b ≠ [] →
     (payloadFeed cfg p (a ++ b)).1 = (payloadFeed cfg p' b).1 ∧
     proj (payloadFeed cfg p (a ++ b)).2 = proj (ev1 ++ (payloadFeed cfg p' b).2)
 
@@ -148,7 +150,7 @@ theorem acceptLine_take (cfg : Cfg) (st : St) (a b : Bytes) (pos : Nat) (h : pos
 /-- **A continuing iteration is unaffected by later bytes.** If one iteration on buffer `a`
 consumed something and goes round again with rest `a'`, then on `a ++ b` it does exactly the
 same and goes round with `a' ++ b`. -/
-theorem stepOnce_cont_append (cfg : Cfg) (urlOk : Bool → Bytes → Bool) {G : PState → Prop} (hl : PayloadLaws cfg G)
+theorem stepOnce_cont_append (cfg : Cfg) (urlOk : Bool → Bytes → Bool) {G Adm : PState → Prop} (hl : PayloadLaws cfg G Adm)
     (st st' : St) (a a' b : Bytes) (ev : List Ev) (hwf : StG G st)
     (h : stepOnce cfg urlOk st a = .cont st' a' ev) :
     stepOnce cfg urlOk st (a ++ b) = .cont st' (a' ++ b) ev := by
@@ -242,7 +244,7 @@ theorem sepLen_pos (lax : Bool) : 1 ≤ sepLen lax := by unfold sepLen; split <;
 
 /-- what a continuing iteration preserves: the loop invariant (`tail = []`, well-formed body
 state) and progress (the rest is shorter) -/
-theorem stepOnce_cont_inv (cfg : Cfg) (urlOk : Bool → Bytes → Bool) {G : PState → Prop} (hl : PayloadLaws cfg G)
+theorem stepOnce_cont_inv (cfg : Cfg) (urlOk : Bool → Bytes → Bool) {G Adm : PState → Prop} (hl : PayloadLaws cfg G Adm)
     (st st' : St) (a a' : Bytes) (ev : List Ev) (ha : a ≠ []) (ht : st.tail = []) (hw : StG G st)
     (h : stepOnce cfg urlOk st a = .cont st' a' ev) :
     st'.tail = [] ∧ a'.length < a.length := by
@@ -430,13 +432,14 @@ def GoodRun (cfg : Cfg) (urlOk : Bool → Bytes → Bool) (G : PState → Prop) 
 `tail ++ b` is observably the same as processing `a ++ b` at once, provided the first part ended
 without an error (and without handing bytes back to an upgraded connection) and every body
 the run goes through is one for which the body-parser laws hold. -/
-theorem feedLoop_append (cfg : Cfg) (urlOk : Bool → Bytes → Bool) {G : PState → Prop}
-    (hl : PayloadLaws cfg G) :
+theorem feedLoop_append (cfg : Cfg) (urlOk : Bool → Bytes → Bool) {G Adm : PState → Prop}
+    (hl : PayloadLaws cfg G Adm) :
     ∀ (f1 : Nat) (st : St) (a b : Bytes) (acc : List Ev), a.length < f1 → st.tail = [] →
       (∀ f, GoodRun cfg urlOk G f st (a ++ b)) →
       (feedLoop cfg urlOk f1 st a acc).err = none →
       (feedLoop cfg urlOk f1 st a acc).rest = [] →
       (∀ e, Ev.payloadErr e ∉ (feedLoop cfg urlOk f1 st a acc).evs) →
+      (∀ p', (feedLoop cfg urlOk f1 st a acc).st.payload = some p' → Adm p') →
       ∀ f2 f3, ((feedLoop cfg urlOk f1 st a acc).st.tail ++ b).length < f2 → (a ++ b).length < f3 →
         Equiv (feedLoop cfg urlOk f3 st (a ++ b) acc)
               (feedLoop cfg urlOk f2 { (feedLoop cfg urlOk f1 st a acc).st with tail := [] }
@@ -445,7 +448,7 @@ theorem feedLoop_append (cfg : Cfg) (urlOk : Bool → Bytes → Bool) {G : PStat
   induction f1 with
   | zero => intro st a b acc h; omega
   | succ n ih =>
-    intro st a b acc hlen ht hrun he hr hpe f2 f3 hf2 hf3
+    intro st a b acc hlen ht hrun he hr hpe hadm f2 f3 hf2 hf3
     by_cases ha : a = []
     · subst ha
       have h0 := feedLoop_nil cfg urlOk n st acc
@@ -474,7 +477,7 @@ theorem feedLoop_append (cfg : Cfg) (urlOk : Bool → Bytes → Bool) {G : PStat
           · exact h.2
         rw [hs] at hunf
         simp only [hsh, if_true] at hunf
-        rw [hunf] at he hr hpe hf2 ⊢
+        rw [hunf] at he hr hpe hadm hf2 ⊢
         cases f3 with
         | zero => omega
         | succ m =>
@@ -483,12 +486,12 @@ theorem feedLoop_append (cfg : Cfg) (urlOk : Bool → Bytes → Bool) {G : PStat
           rw [hwhole] at hun2
           simp only [hsh', if_true] at hun2
           rw [hun2]
-          exact ih st' a' b (acc ++ ev) (by omega) ht' hrun' he hr hpe f2 m hf2 (by simp at hf3 hsh' ⊢; omega)
+          exact ih st' a' b (acc ++ ev) (by omega) ht' hrun' he hr hpe hadm f2 m hf2 (by simp at hf3 hsh' ⊢; omega)
       | stop o =>
         rw [hs] at hunf
         simp only [] at hunf
-        rw [hunf] at he hr hpe hf2 ⊢
-        simp only [] at he hr hpe hf2 ⊢
+        rw [hunf] at he hr hpe hadm hf2 ⊢
+        simp only [] at he hr hpe hadm hf2 ⊢
         have hpe' : ∀ e, Ev.payloadErr e ∉ o.evs := by
           intro e hm; exact hpe e (List.mem_append_right _ hm)
         rcases stepOnce_stop_cases cfg urlOk st a o ha hs he hr hpe' with ⟨hp, ho⟩ | ⟨p, p', hp, hpf, ho⟩
@@ -518,7 +521,7 @@ theorem feedLoop_append (cfg : Cfg) (urlOk : Bool → Bytes → Bool) {G : PStat
               rw [h0, List.append_nil, feedLoop_fuel cfg urlOk f3 (n + 1) st a acc (by simpa using hf3) hlen,
                   feedLoop_succ cfg urlOk n st a acc ha, hs]
               refine ⟨Or.inl host, rfl, he, hr⟩
-          · obtain ⟨hres, hproj⟩ := hl.needs_split p p' a b o.evs (hw p hp) hpf hb
+          · obtain ⟨hres, hproj⟩ := hl.needs_split p p' a b o.evs (hw p hp) hpf (hadm p' (by rw [host])) hb
             cases f2 with
             | zero => omega
             | succ k =>
@@ -574,7 +577,7 @@ def NonChunked (p : PState) : Prop := p.type ≠ .chunked ∧ (p.type = .length 
     subst hx; rfl
   · simp [proj, projEv]
 
-theorem payloadLaws_nonChunked (cfg : Cfg) : PayloadLaws cfg NonChunked := by
+theorem payloadLaws_nonChunked (cfg : Cfg) : PayloadLaws cfg NonChunked (fun _ => True) := by
   refine ⟨?_, ?_, ?_, ?_⟩
   · -- complete_stable
     intro p a b rest ev hg h
@@ -631,7 +634,7 @@ theorem payloadLaws_nonChunked (cfg : Cfg) : PayloadLaws cfg NonChunked := by
         subst h1
         exact ⟨by simp, fun _ => hz⟩
   · -- needs_split
-    intro p p' a b ev1 hg h hb
+    intro p p' a b ev1 hg h _ hb
     rcases p with ⟨ty, len, cs, csz, tl, trl, mt⟩
     cases ty with
     | chunked => exact absurd rfl hg.1
@@ -671,7 +674,7 @@ theorem feedLoop_append_nonChunked (cfg : Cfg) (urlOk : Bool → Bytes → Bool)
     Equiv (feedLoop cfg urlOk f3 st (a ++ b) acc)
           (feedLoop cfg urlOk f2 { (feedLoop cfg urlOk f1 st a acc).st with tail := [] }
             ((feedLoop cfg urlOk f1 st a acc).st.tail ++ b) (feedLoop cfg urlOk f1 st a acc).evs) :=
-  feedLoop_append cfg urlOk (payloadLaws_nonChunked cfg) f1 st a b acc hf1 ht hrun he hr hpe f2 f3 hf2 hf3
+  feedLoop_append cfg urlOk (payloadLaws_nonChunked cfg) f1 st a b acc hf1 ht hrun he hr hpe (fun _ _ => trivial) f2 f3 hf2 hf3
 
 end Aio.Http
 
